@@ -117,7 +117,7 @@ pub fn run_random(seed: u64, count: usize, max_instances: usize, mode: &str, out
             xml_safe: true,
             props_per_instance: 4,
         };
-        let dom = if mode == "shapes" || mode == "scale" { gen::shaped_dom(&mut rng, true, mode == "scale") } else { gen::random_dom(&mut rng, &spec, &known) };
+        let dom = if mode == "shapes" || mode == "scale" { gen::shaped_dom(&mut rng, true, mode == "scale", &known) } else { gen::random_dom(&mut rng, &spec, &known) };
         let roots: Vec<Ref> = match rng.gen_range(0..3) {
             0 => {
                 let mut t = dom.root().children().to_vec();
